@@ -408,7 +408,7 @@ def s5_accessors(chk: Check, proj: Project, names: List[str], rule: str = "S5") 
 
 
 MANIFEST = {
-    "text": "Decides that setting text can only enter a regex through re.escape (package-wide taint rule), that find/list can only hand out paths that went through safe_join and the validity predicate (dominance), that the predicate is allow-AND-NOT-forbid over the right settings with correct any/all helpers, that the default tables are disjoint and forbid Python/template suffixes, and that the settings accessors respect configured falsy values. Also: a dead fallback lint, both documented forms of the raw COMPONENTS setting are handled by every reader, and list() and find() judge the same (relative, normalised) path. Round 4 / triage: every location is listed, the path reaches the predicate unchanged, accessors hand out the configured patterns unchanged, suffixes are anchored with \\Z. Round 6: list() hands the walker the caller's ignore patterns unchanged and the constructor does not test the file system.",
+    "text": "Decides that setting text can only enter a regex through re.escape (package-wide taint rule), that find/list can only hand out paths that went through safe_join and the validity predicate (dominance), that the predicate is allow-AND-NOT-forbid over the right settings with correct any/all helpers, that the default tables are disjoint and forbid Python/template suffixes, and that the settings accessors respect configured falsy values. Also: a dead fallback lint, both documented forms of the raw COMPONENTS setting are handled by every reader, and list() and find() judge the same (relative, normalised) path. Round 4 / triage: every location is listed, the path reaches the predicate unchanged, accessors hand out the configured patterns unchanged, suffixes are anchored with \\Z. Round 6: list() hands the walker the caller's ignore patterns unchanged and the constructor does not test the file system. Round 7: every configured directory on every lookup (no break, no gating by searched_locations, prefix operation for the relative path).",
     "note": "Trusted: django's safe_join and get_files. Not decided: behaviour on real directory trees.",
     "technique": "static taint (re.escape as sanitizer), dominance of filters on exposure paths, constant-table checks, sibling agreement of accessors",
 }
